@@ -1,92 +1,126 @@
 (* sync2.Set: real-time consequences of linearizability, stated on the
    positions of the events of the history (C05).
 
-   Part 1 (any specification) is Lib/LinHW.v: possibilities continued from an
-   arbitrary possibility ([possF]), cutting a derivation at any position
-   ([possF_app], [possF_snoc]), pending calls are those of the history
-   ([possF_pend]).
-
-   Part 2 (set specification): over a stretch of history in which no
-   Remove(v) is invoked, starting from a possibility in which no Remove(v) is
-   pending unlinearized, v stays a member and every call linearized in the
-   stretch sees it ([seg_keep]).
-
-   Part 3: [set_after_add] - in a linearizable history, once an Add(v) has
-   returned (with either result), every Has(v) / Add(v) / other call c2 invoked
-   after that response gets the result c2 has on a set containing v, provided no
-   Remove(v) is pending when the Add is invoked and none is invoked before c2
-   returns. Instances: Has never misses a stably present value; two Adds of v
-   one after the other cannot both succeed without a Remove(v) in between. *)
+   The general part is Lib/LinHW.v: cutting derivations of possibilities
+   (Part 1), the classic Herlihy-Wing form (Part 2), and windows of a history
+   without "anti-operations" for a state property Phi (Part 3). Here Part 3 is
+   instantiated twice for the set specification:
+   - Phi = "v is a member", operation Add v, anti-operation Remove v
+     (lemmas A1-A4);
+   - Phi = "v is not a member", operation Remove v, anti-operation Add v
+     (lemmas R1-R4).
+   Results: [set_after_add] / [set_after_remove] - once an Add(v) (Remove(v)) has
+   returned, with either result, every call invoked after that response gets
+   the result it has on a set containing (not containing) v, provided no
+   Remove(v) (Add(v)) is pending when it is invoked and none is invoked before
+   the later call returns; [adds_window_count] / [removes_window_count] /
+   [two_adds_window] / [two_removes_window] - in a window without Remove(v)
+   (Add(v)) activity at most one Add(v) (Remove(v)) invoked and answered in the
+   window reports success, however the calls overlap; [seq_adds_separated] /
+   [seq_removes_separated] / [set_classic_separated] - in the classic sequential
+   history the separating call is a successful one. *)
 From Typ Require Import SyncMap.Model SyncMap.Inv SyncMap.SetAtomic Lib.Lin Lib.LinHW SyncMap.Linearizable SyncMap.SetSpec SyncMap.SetLin.
 
 
 (* ================================================================== *)
-(* the set specification over a stretch without Remove(v)              *)
+(* the set specification as an instance of Lib/LinHW.v, Part 3          *)
 (* ================================================================== *)
 Definition is_remove (v : Z) (c : call) : Prop := match c with CLoadAndDelete _ k => k = v | _ => False end.
 Definition is_add (v : Z) (c : call) : Prop := match c with CLoadOrStore _ k _ _ => k = v | _ => False end.
-(* no Remove(v) is pending with its marker still to come *)
-Definition nounm (v : Z) (P : lpend) : Prop := forall t c, P t = Some (c, None) -> ~ is_remove v c.
+Definition is_removeb (v : Z) (c : call) : bool := match c with CLoadAndDelete _ k => Z.eqb k v | _ => false end.
+Definition is_addb (v : Z) (c : call) : bool := match c with CLoadOrStore _ k _ _ => Z.eqb k v | _ => false end.
+(* the call reports success: Add "added", Remove "removed" (Has: "present") *)
+Definition succ_set (r : res) : bool :=
+  match r with RLos _ loaded => negb loaded | ROpt (Some _) => true | _ => false end.
 
-Lemma set_spec_keeps v s c : ~ is_remove v c -> v ∈ s -> v ∈ fst (set_spec s c).
+Lemma is_addb_true v c : is_addb v c = true <-> is_add v c.
+Proof. destruct c; cbn; try (split; [discriminate|contradiction]); apply Z.eqb_eq. Qed.
+Lemma is_removeb_true v c : is_removeb v c = true <-> is_remove v c.
+Proof. destruct c; cbn; try (split; [discriminate|contradiction]); apply Z.eqb_eq. Qed.
+Lemma is_removeb_false v c : is_removeb v c = false <-> ~ is_remove v c.
 Proof.
-  destruct c as [j k|j k x|j k x p|j k|j k|j cb]; cbn; intros Hn Hv; try exact Hv.
-  - destruct (bool_decide (k ∈ s)); cbn; set_solver.
-  - destruct (bool_decide (k ∈ s)); cbn; set_solver.
+  rewrite <- is_removeb_true. destruct (is_removeb v c); split; intros H.
+  - discriminate.
+  - exfalso. apply H. reflexivity.
+  - discriminate.
+  - reflexivity.
+Qed.
+Lemma is_addb_false v c : is_addb v c = false <-> ~ is_add v c.
+Proof.
+  rewrite <- is_addb_true. destruct (is_addb v c); split; intros H.
+  - discriminate.
+  - exfalso. apply H. reflexivity.
+  - discriminate.
+  - reflexivity.
+Qed.
+Lemma add_not_remove v c : is_add v c -> ~ is_remove v c.
+Proof. destruct c; cbn; auto. Qed.
+Lemma remove_not_add v c : is_remove v c -> ~ is_add v c.
+Proof. destruct c; cbn; auto. Qed.
+
+Section SetInst.
+Variable v : Z.
+
+(* Phi = "v is a member": established by Add v, destroyed only by Remove v *)
+Lemma A1 : forall (a : gset Z) c, is_removeb v c = false -> v ∈ a -> v ∈ fst (set_spec a c).
+Proof.
+  intros a c Hn Hv. destruct c as [j k|j k x|j k x p|j k|j k|j cb]; cbn; try exact Hv.
+  - destruct (bool_decide (k ∈ a)); cbn; set_solver.
+  - cbn in Hn. apply Z.eqb_neq in Hn. destruct (bool_decide (k ∈ a)); cbn; set_solver.
+Qed.
+Lemma A2 : forall (a : gset Z) c, is_addb v c = true -> v ∈ fst (set_spec a c).
+Proof.
+  intros a c H. destruct c as [j k|j k x|j k x p|j k|j k|j cb]; cbn in H; try discriminate. apply Z.eqb_eq in H. subst k. cbn.
+  destruct (bool_decide (v ∈ a)) eqn:E; cbn; [apply bool_decide_eq_true in E; exact E|set_solver].
+Qed.
+Lemma A3 : forall (a : gset Z) c, is_addb v c = true -> v ∈ a -> succ_set (snd (set_spec a c)) = false.
+Proof.
+  intros a c H Hv. destruct c as [j k|j k x|j k x p|j k|j k|j cb]; cbn in H; try discriminate. apply Z.eqb_eq in H. subst k. cbn.
+  rewrite bool_decide_eq_true_2 by exact Hv. reflexivity.
+Qed.
+Lemma A4 : forall (a : gset Z) c, v ∈ a -> ~ v ∈ fst (set_spec a c) -> is_removeb v c = true /\ succ_set (snd (set_spec a c)) = true.
+Proof.
+  intros a c Hv Hn. destruct c as [j k|j k x|j k x p|j k|j k|j cb]; cbn in Hn; try contradiction.
+  - exfalso. apply Hn. destruct (bool_decide (k ∈ a)); cbn; set_solver.
+  - destruct (decide (k = v)) as [->|N].
+    + cbn. rewrite Z.eqb_refl, bool_decide_eq_true_2 by exact Hv. auto.
+    + exfalso. apply Hn. destruct (bool_decide (k ∈ a)); cbn; set_solver.
 Qed.
 
-Lemma set_spec_adds v s c : is_add v c -> v ∈ fst (set_spec s c).
+(* Phi = "v is not a member": established by Remove v, destroyed only by Add v *)
+Lemma R1 : forall (a : gset Z) c, is_addb v c = false -> ~ v ∈ a -> ~ v ∈ fst (set_spec a c).
 Proof.
-  destruct c as [j k|j k x|j k x p|j k|j k|j cb]; cbn; try contradiction. intros ->.
-  destruct (bool_decide (v ∈ s)) eqn:E; cbn; [apply bool_decide_eq_true in E; exact E|set_solver].
+  intros a c Hn Hv. destruct c as [j k|j k x|j k x p|j k|j k|j cb]; cbn; try exact Hv.
+  - cbn in Hn. apply Z.eqb_neq in Hn. destruct (bool_decide (k ∈ a)); cbn; set_solver.
+  - destruct (bool_decide (k ∈ a)); cbn; set_solver.
+Qed.
+Lemma R2 : forall (a : gset Z) c, is_removeb v c = true -> ~ v ∈ fst (set_spec a c).
+Proof.
+  intros a c H. destruct c as [j k|j k x|j k x p|j k|j k|j cb]; cbn in H; try discriminate. apply Z.eqb_eq in H. subst k. cbn.
+  destruct (bool_decide (v ∈ a)) eqn:E; cbn; [set_solver|apply bool_decide_eq_false in E; exact E].
+Qed.
+Lemma R3 : forall (a : gset Z) c, is_removeb v c = true -> ~ v ∈ a -> succ_set (snd (set_spec a c)) = false.
+Proof.
+  intros a c H Hv. destruct c as [j k|j k x|j k x p|j k|j k|j cb]; cbn in H; try discriminate. apply Z.eqb_eq in H. subst k. cbn.
+  rewrite bool_decide_eq_false_2 by exact Hv. reflexivity.
+Qed.
+Lemma R4 : forall (a : gset Z) c, ~ v ∈ a -> ~ ~ v ∈ fst (set_spec a c) -> is_addb v c = true /\ succ_set (snd (set_spec a c)) = true.
+Proof.
+  intros a c Hv Hn. destruct c as [j k|j k x|j k x p|j k|j k|j cb]; cbn in Hn; try contradiction.
+  - destruct (decide (k = v)) as [->|N].
+    + cbn. rewrite Z.eqb_refl, bool_decide_eq_false_2 by exact Hv. auto.
+    + exfalso. apply Hn. destruct (bool_decide (k ∈ a)); cbn; set_solver.
+  - exfalso. apply Hn. destruct (bool_decide (k ∈ a)); cbn; set_solver.
 Qed.
 
-Lemma seg_keep v s1 (P1 : lpend) w s2 (P2 : lpend) :
-  possF set_spec s1 P1 w s2 P2 ->
-  (forall t c, In (HInv t c) w -> ~ is_remove v c) -> nounm v P1 ->
-  nounm v P2 /\ (v ∈ s1 -> v ∈ s2) /\
-  forall t c r, P2 t = Some (c, Some r) ->
-    ((forall c', ~ In (HInv t c') w) /\ P1 t = Some (c, Some r)) \/
-    ((exists sm, r = snd (set_spec sm c) /\ (v ∈ s1 -> v ∈ sm)) /\ (is_add v c -> v ∈ s2)).
-Proof.
-  induction 1 as [|h a P t c H IH HP|h a P t c H IH HP|h a P t c r H IH HP]; intros Hw Hn.
-  - split; [exact Hn|]. split; [auto|]. intros t c r Ht. left. split; [intros c' []|exact Ht].
-  - destruct IH as (I1 & I2 & I3); [intros t0 c0 Hi; apply (Hw t0 c0); right; exact Hi|exact Hn|].
-    split; [|split; [exact I2|]].
-    + intros t0 c0. unfold upd. destruct (Nat.eq_dec t0 t) as [->|N]; [|apply I1].
-      intros [= <-]. apply (Hw t c). left. reflexivity.
-    + intros t0 c0 r0. unfold upd. destruct (Nat.eq_dec t0 t) as [->|N]; [discriminate|]. intros Ht.
-      destruct (I3 t0 c0 r0 Ht) as [[A B]|B]; [left|right; exact B].
-      split; [|exact B]. intros c' [[= E _]|Hi]; [congruence|exact (A c' Hi)].
-  - destruct (IH Hw Hn) as (I1 & I2 & I3).
-    assert (Hnr : ~ is_remove v c) by (apply (I1 t c HP)).
-    split; [|split].
-    + intros t0 c0. unfold upd. destruct (Nat.eq_dec t0 t) as [->|N]; [discriminate|apply I1].
-    + intros Hv. apply set_spec_keeps; auto.
-    + intros t0 c0 r0. unfold upd. destruct (Nat.eq_dec t0 t) as [->|N].
-      * intros [= <- <-]. right. split; [exists a; auto|]. apply set_spec_adds.
-      * intros Ht. destruct (I3 t0 c0 r0 Ht) as [A|[A B]]; [left; exact A|right].
-        split; [exact A|]. intros Ha. apply set_spec_keeps; auto.
-  - destruct IH as (I1 & I2 & I3); [intros t0 c0 Hi; apply (Hw t0 c0); right; exact Hi|exact Hn|].
-    split; [|split; [exact I2|]].
-    + intros t0 c0. unfold upd. destruct (Nat.eq_dec t0 t) as [->|N]; [discriminate|apply I1].
-    + intros t0 c0 r0. unfold upd. destruct (Nat.eq_dec t0 t) as [->|N]; [discriminate|]. intros Ht.
-      destruct (I3 t0 c0 r0 Ht) as [[A B]|B]; [left|right; exact B].
-      split; [|exact B]. intros c' [Hi|Hi]; [discriminate|exact (A c' Hi)].
-Qed.
+Definition in_dec_v (a : gset Z) : {v ∈ a} + {~ v ∈ a} := decide (v ∈ a).
+Definition notin_dec_v (a : gset Z) : {~ v ∈ a} + {~ ~ v ∈ a} :=
+  match decide (v ∈ a) with left H => right (fun N => N H) | right N => left N end.
+End SetInst.
 
 (* ================================================================== *)
-(* after an Add(v) has returned                                        *)
+(* after an Add(v) / a Remove(v) has returned                          *)
 (* ================================================================== *)
-(* the call pending for thread t after history h (oldest event first) *)
-Definition pend_call (h : list hev) (t : nat) : option call :=
-  match last_ev (rev h) t with Some (HInv _ c) => Some c | _ => None end.
-
-Lemma nounm_upd_none v (P : lpend) t : nounm v P -> nounm v (upd P t None).
-Proof. intros H t0 c0. unfold upd. destruct (Nat.eq_dec t0 t); [discriminate|apply H]. Qed.
-Lemma nounm_upd_inv v (P : lpend) t c : nounm v P -> ~ is_remove v c -> nounm v (upd P t (Some (c, None))).
-Proof. intros H Hc t0 c0. unfold upd. destruct (Nat.eq_dec t0 t); [intros [= <-]; exact Hc|apply H]. Qed.
-
 (* History (oldest first): ... Add(v) invoked by t1 ... it returns r1 ... c2
    invoked by t2 ... it returns r2 ...; hA / hB contain no event of t1 / t2, so
    the responses belong to these invocations. If no Remove(v) is pending when
@@ -99,56 +133,139 @@ Theorem set_after_add v (h0 hA h2 hB h4 : list hev) t1 c1 r1 t2 c2 r2 :
   (forall t c, In (HInv t c) (hA ++ h2 ++ hB) -> ~ is_remove v c) ->
   exists sm, v ∈ sm /\ r2 = snd (set_spec sm c2).
 Proof.
-  intros (s & P & Hp) Hadd HnA HnB Hc2 Hpend Hwin. apply poss_possF in Hp.
-  repeat rewrite rev_app_distr in Hp. cbn [rev app] in Hp.
-  apply possF_app in Hp as (s0 & P0 & H0 & Hp).
-  apply possF_snoc in Hp as (s0' & P0' & L0 & Hn0 & Hp).
-  apply possF_app in Hp as (sa & Pa & HA & Hp).
-  apply possF_snoc in Hp as (sa' & Pa' & La & (c1' & Hc1 & Hp)).
-  apply possF_app in Hp as (sb & Pb & H2 & Hp).
-  apply possF_snoc in Hp as (sb' & Pb' & Lb & Hnb & Hp).
-  apply possF_app in Hp as (sc & Pc & HB & Hp).
-  apply possF_snoc in Hp as (sc' & Pc' & Lc & (c2' & Hc2' & _)).
-  assert (Hnil : forall t c, In (@HInv call res t c) [] -> ~ is_remove v c) by (intros t c []).
-  assert (HwA : forall t c, In (HInv t c) ([] ++ rev hA) -> ~ is_remove v c).
-  { intros t c Hi. cbn in Hi. apply in_rev in Hi. apply (Hwin t c). apply in_or_app. auto. }
-  assert (Hw2 : forall t c, In (HInv t c) ([] ++ rev h2) -> ~ is_remove v c).
-  { intros t c Hi. cbn in Hi. apply in_rev in Hi. apply (Hwin t c). apply in_or_app. right. apply in_or_app. auto. }
-  assert (HwB : forall t c, In (HInv t c) ([] ++ rev hB) -> ~ is_remove v c).
-  { intros t c Hi. cbn in Hi. apply in_rev in Hi. apply (Hwin t c). apply in_or_app. right. apply in_or_app. auto. }
-  assert (Hadd_nr : ~ is_remove v c1) by (destruct c1; cbn in *; auto).
-  (* when the Add is invoked *)
-  assert (N0 : nounm v P0).
-  { intros t c Ht Hr. pose proof (possF_pend _ _ _ _ _ _ H0 t) as X. specialize (Hpend t). unfold pend_call in Hpend.
-    destruct (last_ev (rev h0) t) as [[? c0|? ?]|].
-    - destruct X as [d Hd]. rewrite Ht in Hd. injection Hd as <- _. exact (Hpend c eq_refl Hr).
-    - rewrite Ht in X. discriminate.
-    - destruct (X c None Ht) as [d' Hd']. discriminate. }
-  destruct (seg_keep v _ _ _ _ _ L0 Hnil N0) as (N0' & _ & _).
-  pose proof (nounm_upd_inv v P0' t1 c1 N0' Hadd_nr) as Na.
-  (* until the Add has returned *)
-  pose proof (possF_trans _ _ _ _ _ _ _ _ _ HA La) as SA.
-  destruct (seg_keep v _ _ _ _ _ SA HwA Na) as (Na' & _ & Ia).
-  assert (Ec1 : c1' = c1).
-  { pose proof (possF_pend _ _ _ _ _ _ SA t1) as X. cbn [app] in X. rewrite (last_ev_none _ _ (no_ev_rev _ _ HnA)) in X.
-    destruct (X c1' (Some r1) Hc1) as [d' Hd']. rewrite upd_same in Hd'. congruence. }
-  subst c1'.
-  assert (Va : v ∈ sa').
-  { destruct (Ia t1 c1 r1 Hc1) as [[_ B]|[_ B]]; [rewrite upd_same in B; discriminate|exact (B Hadd)]. }
-  pose proof (nounm_upd_none v Pa' t1 Na') as Nb.
-  (* until c2 is invoked *)
-  pose proof (possF_trans _ _ _ _ _ _ _ _ _ H2 Lb) as S2.
-  destruct (seg_keep v _ _ _ _ _ S2 Hw2 Nb) as (Nb' & Vb & _).
-  pose proof (nounm_upd_inv v Pb' t2 c2 Nb' Hc2) as Nc.
-  (* until c2 returns *)
-  pose proof (possF_trans _ _ _ _ _ _ _ _ _ HB Lc) as SB.
-  destruct (seg_keep v _ _ _ _ _ SB HwB Nc) as (_ & _ & Ic).
-  assert (Ec2 : c2' = c2).
-  { pose proof (possF_pend _ _ _ _ _ _ SB t2) as X. cbn [app] in X. rewrite (last_ev_none _ _ (no_ev_rev _ _ HnB)) in X.
-    destruct (X c2' (Some r2) Hc2') as [d' Hd']. rewrite upd_same in Hd'. congruence. }
-  subst c2'.
-  destruct (Ic t2 c2 r2 Hc2') as [[_ B]|[(sm & Er & Vm) _]]; [rewrite upd_same in B; discriminate|].
-  exists sm. split; [apply Vm, Vb, Va|exact Er].
+  intros L Hadd HnA HnB Hc2 Hpend Hwin.
+  apply (after_op set_spec (fun a => v ∈ a) (is_addb v) (is_removeb v) (A1 v) (A2 v) ∅ h0 hA h2 hB h4 t1 c1 r1 t2 c2 r2 L);
+    try assumption.
+  - apply is_addb_true, Hadd.
+  - apply is_removeb_false, add_not_remove, Hadd.
+  - apply is_removeb_false, Hc2.
+  - intros t c E. apply is_removeb_false, (Hpend t c E).
+  - intros t c E. apply is_removeb_false, (Hwin t c E).
+Qed.
+
+(* the dual: after a Remove(v) has returned (with either result), with no
+   Add(v) pending at its invocation and none invoked before c2 returns, r2 is
+   the result of c2 on a set that does not contain v *)
+Theorem set_after_remove v (h0 hA h2 hB h4 : list hev) t1 c1 r1 t2 c2 r2 :
+  linearizable set_spec ∅ (h0 ++ [HInv t1 c1] ++ hA ++ [HRes t1 r1] ++ h2 ++ [HInv t2 c2] ++ hB ++ [HRes t2 r2] ++ h4) ->
+  is_remove v c1 -> no_ev t1 hA -> no_ev t2 hB -> ~ is_add v c2 ->
+  (forall t c, pend_call h0 t = Some c -> ~ is_add v c) ->
+  (forall t c, In (HInv t c) (hA ++ h2 ++ hB) -> ~ is_add v c) ->
+  exists sm, ~ v ∈ sm /\ r2 = snd (set_spec sm c2).
+Proof.
+  intros L Hrem HnA HnB Hc2 Hpend Hwin.
+  apply (after_op set_spec (fun a => ~ v ∈ a) (is_removeb v) (is_addb v) (R1 v) (R2 v) ∅ h0 hA h2 hB h4 t1 c1 r1 t2 c2 r2 L);
+    try assumption.
+  - apply is_removeb_true, Hrem.
+  - apply is_addb_false, remove_not_add, Hrem.
+  - apply is_addb_false, Hc2.
+  - intros t c E. apply is_addb_false, (Hpend t c E).
+  - intros t c E. apply is_addb_false, (Hwin t c E).
+Qed.
+
+(* ================================================================== *)
+(* overlapping Adds / Removes: at most one succeeds per window         *)
+(* ================================================================== *)
+(* the number of responses in w (most recent event first) that report "added" /
+   "removed" and answer an Add(v) / Remove(v) invoked within w *)
+Definition cnt_added (v : Z) (w : list hev) : nat := cnt_succ (is_addb v) succ_set w.
+Definition cnt_removed (v : Z) (w : list hev) : nat := cnt_succ (is_removeb v) succ_set w.
+
+(* A window W of a linearizable history: if no Remove(v) is pending at its
+   start and none is invoked in it, at most one Add(v) that is invoked and
+   answered in W reports "added" - whatever the overlap of the Adds. *)
+Theorem adds_window_count v (h0 W h4 : list hev) :
+  linearizable set_spec ∅ (h0 ++ W ++ h4) ->
+  (forall t c, pend_call h0 t = Some c -> ~ is_remove v c) ->
+  (forall t c, In (HInv t c) W -> ~ is_remove v c) ->
+  cnt_added v (rev W) <= 1.
+Proof.
+  intros L Hp Hw.
+  apply (window_one set_spec (fun a => v ∈ a) (in_dec_v v) (is_addb v) (is_removeb v) succ_set (A1 v) (A2 v) (A3 v) ∅ h0 W h4 L).
+  - intros t c E. apply is_removeb_false, (Hp t c E).
+  - intros t c E. apply is_removeb_false, (Hw t c E).
+Qed.
+
+Theorem removes_window_count v (h0 W h4 : list hev) :
+  linearizable set_spec ∅ (h0 ++ W ++ h4) ->
+  (forall t c, pend_call h0 t = Some c -> ~ is_add v c) ->
+  (forall t c, In (HInv t c) W -> ~ is_add v c) ->
+  cnt_removed v (rev W) <= 1.
+Proof.
+  intros L Hp Hw.
+  apply (window_one set_spec (fun a => ~ v ∈ a) (notin_dec_v v) (is_removeb v) (is_addb v) succ_set (R1 v) (R2 v) (R3 v) ∅ h0 W h4 L).
+  - intros t c E. apply is_addb_false, (Hp t c E).
+  - intros t c E. apply is_addb_false, (Hw t c E).
+Qed.
+
+(* spelled out for two calls A and B of the window, A answered first:
+     W = z ++ [HRes tA rA] ++ y ++ [HRes tB rB] ++ x
+   where tA's pending call after z is cA and tB's pending call after
+   z ++ [HRes tA rA] ++ y is cB (both invoked within W, in any order, B before,
+   during or after A). Two Add(v) cannot both report "added" ... *)
+Theorem two_adds_window v (h0 z y x h4 : list hev) tA cA rA tB cB rB :
+  linearizable set_spec ∅ (h0 ++ (z ++ [HRes tA rA] ++ y ++ [HRes tB rB] ++ x) ++ h4) ->
+  pend_call z tA = Some cA -> is_add v cA -> succ_set rA = true ->
+  pend_call (z ++ [HRes tA rA] ++ y) tB = Some cB -> is_add v cB -> succ_set rB = true ->
+  (forall t c, pend_call h0 t = Some c -> ~ is_remove v c) ->
+  (forall t c, In (HInv t c) (z ++ [HRes tA rA] ++ y ++ [HRes tB rB] ++ x) -> ~ is_remove v c) ->
+  False.
+Proof.
+  intros L PA AA SA PB AB SB Hp Hw.
+  pose proof (adds_window_count v h0 _ h4 L Hp Hw) as C. unfold cnt_added in C.
+  repeat rewrite rev_app_distr in C. cbn [rev app] in C. rewrite <- !app_assoc in C. cbn [app] in C.
+  unfold pend_call in PA, PB. repeat rewrite rev_app_distr in PB. cbn [rev app] in PB. rewrite <- !app_assoc in PB. cbn [app] in PB.
+  destruct (last_ev (rev z) tA) as [[tA' cA'|? ?]|] eqn:EA; try discriminate PA. injection PA as ->.
+  destruct (last_ev_in _ _ _ EA) as [_ ETA]. cbn in ETA. subst tA'.
+  destruct (last_ev (rev y ++ HRes tA rA :: rev z) tB) as [[tB' cB'|? ?]|] eqn:EB; try discriminate PB. injection PB as ->.
+  destruct (last_ev_in _ _ _ EB) as [_ ETB]. cbn in ETB. subst tB'.
+  pose proof (cnt_succ_two (is_addb v) succ_set (rev x) (rev y) (rev z) tA rA tB rB cA cB SA SB EA (proj2 (is_addb_true v cA) AA) EB (proj2 (is_addb_true v cB) AB)).
+  lia.
+Qed.
+
+(* ... and two Remove(v) cannot both report "removed" without an Add(v) around *)
+Theorem two_removes_window v (h0 z y x h4 : list hev) tA cA rA tB cB rB :
+  linearizable set_spec ∅ (h0 ++ (z ++ [HRes tA rA] ++ y ++ [HRes tB rB] ++ x) ++ h4) ->
+  pend_call z tA = Some cA -> is_remove v cA -> succ_set rA = true ->
+  pend_call (z ++ [HRes tA rA] ++ y) tB = Some cB -> is_remove v cB -> succ_set rB = true ->
+  (forall t c, pend_call h0 t = Some c -> ~ is_add v c) ->
+  (forall t c, In (HInv t c) (z ++ [HRes tA rA] ++ y ++ [HRes tB rB] ++ x) -> ~ is_add v c) ->
+  False.
+Proof.
+  intros L PA AA SA PB AB SB Hp Hw.
+  pose proof (removes_window_count v h0 _ h4 L Hp Hw) as C. unfold cnt_removed in C.
+  repeat rewrite rev_app_distr in C. cbn [rev app] in C. rewrite <- !app_assoc in C. cbn [app] in C.
+  unfold pend_call in PA, PB. repeat rewrite rev_app_distr in PB. cbn [rev app] in PB. rewrite <- !app_assoc in PB. cbn [app] in PB.
+  destruct (last_ev (rev z) tA) as [[tA' cA'|? ?]|] eqn:EA; try discriminate PA. injection PA as ->.
+  destruct (last_ev_in _ _ _ EA) as [_ ETA]. cbn in ETA. subst tA'.
+  destruct (last_ev (rev y ++ HRes tA rA :: rev z) tB) as [[tB' cB'|? ?]|] eqn:EB; try discriminate PB. injection PB as ->.
+  destruct (last_ev_in _ _ _ EB) as [_ ETB]. cbn in ETB. subst tB'.
+  pose proof (cnt_succ_two (is_removeb v) succ_set (rev x) (rev y) (rev z) tA rA tB rB cA cB SA SB EA (proj2 (is_removeb_true v cA) AA) EB (proj2 (is_removeb_true v cB) AB)).
+  lia.
+Qed.
+
+(* in a legal sequential set history a successful Add(v) is separated from
+   every earlier Add(v) by a successful Remove(v), and dually *)
+Theorem seq_adds_separated v (S : list (nat * call * res)) (s : gset Z) Sa x Sm y Sb :
+  Lin.spec_run set_spec ∅ (calls S) = (s, results S) -> S = Sa ++ x :: Sm ++ y :: Sb ->
+  is_add v (snd (fst x)) -> is_add v (snd (fst y)) -> succ_set (snd y) = true ->
+  exists z, In z Sm /\ is_remove v (snd (fst z)) /\ succ_set (snd z) = true.
+Proof.
+  intros H E Hx Hy Hs.
+  destruct (seq_between set_spec (fun a => v ∈ a) (in_dec_v v) (is_addb v) (is_removeb v) succ_set (A2 v) (A3 v) (A4 v)
+              ∅ S s Sa x Sm y Sb H E (proj2 (is_addb_true _ _) Hx) (proj2 (is_addb_true _ _) Hy) Hs) as (z & Hz & Z1 & Z2).
+  exists z. split; [exact Hz|]. split; [apply is_removeb_true, Z1|exact Z2].
+Qed.
+
+Theorem seq_removes_separated v (S : list (nat * call * res)) (s : gset Z) Sa x Sm y Sb :
+  Lin.spec_run set_spec ∅ (calls S) = (s, results S) -> S = Sa ++ x :: Sm ++ y :: Sb ->
+  is_remove v (snd (fst x)) -> is_remove v (snd (fst y)) -> succ_set (snd y) = true ->
+  exists z, In z Sm /\ is_add v (snd (fst z)) /\ succ_set (snd z) = true.
+Proof.
+  intros H E Hx Hy Hs.
+  destruct (seq_between set_spec (fun a => ~ v ∈ a) (notin_dec_v v) (is_removeb v) (is_addb v) succ_set (R2 v) (R3 v) (R4 v)
+              ∅ S s Sa x Sm y Sb H E (proj2 (is_removeb_true _ _) Hx) (proj2 (is_removeb_true _ _) Hy) Hs) as (z & Hz & Z1 & Z2).
+  exists z. split; [exact Hz|]. split; [apply is_addb_true, Z1|exact Z2].
 Qed.
 
 (* ---- for the runs of the machine ---- *)
@@ -208,3 +325,93 @@ Theorem set_linearizable_classic z progs sched :
     (forall h1 h2, h = h1 ++ h2 -> exists S1 S2, S = S1 ++ S2 /\
        forall t, length (ress t h1) <= length (sel t S1) <= length (invs t h1)).
 Proof. intros Hfr. apply linearizable_classic, set_linearizable, Hfr. Qed.
+
+(* ---- the duals and the window theorems for the runs of the machine ---- *)
+Theorem has_after_remove z progs sched v (h0 hA h2 hB h4 : list hev) t1 j1 r1 t2 j2 r2 :
+  Forall (Forall set_frag) progs ->
+  map_hist (run_schedule (init_config_z [z] progs) sched) =
+    h0 ++ [HInv t1 (CLoadAndDelete j1 v)] ++ hA ++ [HRes t1 r1] ++ h2 ++ [HInv t2 (CLoad j2 v)] ++ hB ++ [HRes t2 r2] ++ h4 ->
+  no_ev t1 hA -> no_ev t2 hB ->
+  (forall t c, pend_call h0 t = Some c -> ~ is_add v c) ->
+  (forall t c, In (HInv t c) (hA ++ h2 ++ hB) -> ~ is_add v c) ->
+  r2 = ROpt None.
+Proof.
+  intros Hfr E HA HB Hp Hw. pose proof (set_linearizable z progs sched Hfr) as L. rewrite E in L.
+  destruct (set_after_remove v h0 hA h2 hB h4 t1 _ r1 t2 _ r2 L eq_refl HA HB (fun x => x) Hp Hw) as (sm & Hv & ->).
+  cbn. rewrite bool_decide_eq_false_2 by exact Hv. reflexivity.
+Qed.
+
+Theorem remove_after_remove z progs sched v (h0 hA h2 hB h4 : list hev) t1 j1 r1 t2 j2 r2 :
+  Forall (Forall set_frag) progs ->
+  map_hist (run_schedule (init_config_z [z] progs) sched) =
+    h0 ++ [HInv t1 (CLoadAndDelete j1 v)] ++ hA ++ [HRes t1 r1] ++ h2 ++ [HInv t2 (CLoadAndDelete j2 v)] ++ hB ++ [HRes t2 r2] ++ h4 ->
+  no_ev t1 hA -> no_ev t2 hB ->
+  (forall t c, pend_call h0 t = Some c -> ~ is_add v c) ->
+  (forall t c, In (HInv t c) (hA ++ h2 ++ hB) -> ~ is_add v c) ->
+  r2 = ROpt None.
+Proof.
+  intros Hfr E HA HB Hp Hw. pose proof (set_linearizable z progs sched Hfr) as L. rewrite E in L.
+  destruct (set_after_remove v h0 hA h2 hB h4 t1 _ r1 t2 _ r2 L eq_refl HA HB (fun x => x) Hp Hw) as (sm & Hv & ->).
+  cbn. rewrite bool_decide_eq_false_2 by exact Hv. reflexivity.
+Qed.
+
+Theorem run_adds_window z progs sched v (h0 W h4 : list hev) :
+  Forall (Forall set_frag) progs ->
+  map_hist (run_schedule (init_config_z [z] progs) sched) = h0 ++ W ++ h4 ->
+  (forall t c, pend_call h0 t = Some c -> ~ is_remove v c) ->
+  (forall t c, In (HInv t c) W -> ~ is_remove v c) ->
+  cnt_added v (rev W) <= 1.
+Proof. intros Hfr E. pose proof (set_linearizable z progs sched Hfr) as L. rewrite E in L. exact (adds_window_count v h0 W h4 L). Qed.
+
+Theorem run_removes_window z progs sched v (h0 W h4 : list hev) :
+  Forall (Forall set_frag) progs ->
+  map_hist (run_schedule (init_config_z [z] progs) sched) = h0 ++ W ++ h4 ->
+  (forall t c, pend_call h0 t = Some c -> ~ is_add v c) ->
+  (forall t c, In (HInv t c) W -> ~ is_add v c) ->
+  cnt_removed v (rev W) <= 1.
+Proof. intros Hfr E. pose proof (set_linearizable z progs sched Hfr) as L. rewrite E in L. exact (removes_window_count v h0 W h4 L). Qed.
+
+Theorem run_two_adds z progs sched v (h0 z0 y x h4 : list hev) tA cA rA tB cB rB :
+  Forall (Forall set_frag) progs ->
+  map_hist (run_schedule (init_config_z [z] progs) sched) = h0 ++ (z0 ++ [HRes tA rA] ++ y ++ [HRes tB rB] ++ x) ++ h4 ->
+  pend_call z0 tA = Some cA -> is_add v cA -> succ_set rA = true ->
+  pend_call (z0 ++ [HRes tA rA] ++ y) tB = Some cB -> is_add v cB -> succ_set rB = true ->
+  (forall t c, pend_call h0 t = Some c -> ~ is_remove v c) ->
+  (forall t c, In (HInv t c) (z0 ++ [HRes tA rA] ++ y ++ [HRes tB rB] ++ x) -> ~ is_remove v c) ->
+  False.
+Proof. intros Hfr E. pose proof (set_linearizable z progs sched Hfr) as L. rewrite E in L. exact (two_adds_window v h0 z0 y x h4 tA cA rA tB cB rB L). Qed.
+
+Theorem run_two_removes z progs sched v (h0 z0 y x h4 : list hev) tA cA rA tB cB rB :
+  Forall (Forall set_frag) progs ->
+  map_hist (run_schedule (init_config_z [z] progs) sched) = h0 ++ (z0 ++ [HRes tA rA] ++ y ++ [HRes tB rB] ++ x) ++ h4 ->
+  pend_call z0 tA = Some cA -> is_remove v cA -> succ_set rA = true ->
+  pend_call (z0 ++ [HRes tA rA] ++ y) tB = Some cB -> is_remove v cB -> succ_set rB = true ->
+  (forall t c, pend_call h0 t = Some c -> ~ is_add v c) ->
+  (forall t c, In (HInv t c) (z0 ++ [HRes tA rA] ++ y ++ [HRes tB rB] ++ x) -> ~ is_add v c) ->
+  False.
+Proof. intros Hfr E. pose proof (set_linearizable z progs sched Hfr) as L. rewrite E in L. exact (two_removes_window v h0 z0 y x h4 tA cA rA tB cB rB L). Qed.
+
+(* the classic sequential history of a run, with the separation property: the
+   successful Remove(v) between two successful Adds of v is an entry of S, and
+   clause (c) places it in real time (Lib/LinHW.v, classic_rt_order) *)
+Theorem set_classic_separated z progs sched :
+  Forall (Forall set_frag) progs ->
+  let h := map_hist (run_schedule (init_config_z [z] progs) sched) in
+  exists (s : gset Z) (S : list (nat * call * res)),
+    Lin.spec_run set_spec ∅ (calls S) = (s, results S) /\
+    (forall t, exists l1 l2, invs t h = calls (sel t S) ++ l1 /\ results (sel t S) = ress t h ++ l2 /\
+                             length l1 + length l2 <= 1) /\
+    (forall h1 h2, h = h1 ++ h2 -> exists S1 S2, S = S1 ++ S2 /\
+       forall t, length (ress t h1) <= length (sel t S1) <= length (invs t h1)) /\
+    (forall v Sa x Sm y Sb, S = Sa ++ x :: Sm ++ y :: Sb ->
+       is_add v (snd (fst x)) -> is_add v (snd (fst y)) -> succ_set (snd y) = true ->
+       exists z, In z Sm /\ is_remove v (snd (fst z)) /\ succ_set (snd z) = true) /\
+    (forall v Sa x Sm y Sb, S = Sa ++ x :: Sm ++ y :: Sb ->
+       is_remove v (snd (fst x)) -> is_remove v (snd (fst y)) -> succ_set (snd y) = true ->
+       exists z, In z Sm /\ is_add v (snd (fst z)) /\ succ_set (snd z) = true).
+Proof.
+  intros Hfr h. destruct (set_linearizable_classic z progs sched Hfr) as (s & S & A & B & C). fold h in B, C.
+  exists s, S. split; [exact A|]. split; [exact B|]. split; [exact C|]. split.
+  - intros v Sa x Sm y Sb E. exact (seq_adds_separated v S s Sa x Sm y Sb A E).
+  - intros v Sa x Sm y Sb E. exact (seq_removes_separated v S s Sa x Sm y Sb A E).
+Qed.
